@@ -69,6 +69,8 @@ func c03SizedAsWritten(c *core.Ctx) {
 	c.Floor("R3.17", "header numbers written by the standalone encoders", n, 4)
 }
 
+var c03Env = map[*ssa.Parameter]string{}
+
 // c03Canon: a canonical text of a value built from parameters, constants, fields, len and
 // static calls; "?" marks what it does not know.
 func c03Canon(v ssa.Value, d int) string {
@@ -86,6 +88,9 @@ func c03Canon(v ssa.Value, d int) string {
 	case *ssa.ChangeType:
 		return c03Canon(x.X, d)
 	case *ssa.Parameter:
+		if s, ok := c03Env[x]; ok {
+			return s
+		}
 		for i, pp := range x.Parent().Params {
 			if pp == x {
 				return fmt.Sprintf("p%d", i)
@@ -117,6 +122,30 @@ func c03Canon(v ssa.Value, d int) string {
 			var as []string
 			for _, a := range x.Call.Args {
 				as = append(as, c03Canon(a, d-1))
+			}
+			// a one-line accessor of the repository (Component.Length() = TLNum(len(c.Val)))
+			// stands for what it returns
+			if cal.Blocks != nil && len(cal.Blocks) == 1 && len(cal.Blocks[0].Instrs) <= 8 && len(cal.Params) == len(as) && strings.HasPrefix(core.PkgPathOf(cal), core.ModPath) {
+				if ret, ok := cal.Blocks[0].Instrs[len(cal.Blocks[0].Instrs)-1].(*ssa.Return); ok && len(ret.Results) == 1 {
+					saved := map[*ssa.Parameter]string{}
+					for i, pp := range cal.Params {
+						if old, had := c03Env[pp]; had {
+							saved[pp] = old
+						}
+						c03Env[pp] = as[i]
+					}
+					r := c03Canon(ret.Results[0], d-1)
+					for _, pp := range cal.Params {
+						if old, had := saved[pp]; had {
+							c03Env[pp] = old
+						} else {
+							delete(c03Env, pp)
+						}
+					}
+					if !strings.Contains(r, "?") {
+						return r
+					}
+				}
 			}
 			return core.FuncName(cal) + "(" + strings.Join(as, ",") + ")"
 		}
